@@ -252,7 +252,20 @@ def escape_context(fn, n):
             pm[id(ch)] = p
     p = pm.get(id(n))
     if isinstance(p, ast.Attribute):
-        return None                     # self._random.method
+        gp = pm.get(id(p))
+        if isinstance(gp, ast.Call) and gp.func is p:
+            return None                 # self._random.method(...): a use
+        # self._random.method taken as a value: the bound method carries the generator (a copy of the stream made with copy / deepcopy keeps
+        # drawing from the original generator through it; whoever receives it draws behind the stream's back)
+        if isinstance(gp, (ast.Assign, ast.AnnAssign, ast.NamedExpr)):
+            return f'kept as the bound method `{unparse(p)}` (it carries the generator object)'
+        if isinstance(gp, ast.Return):
+            return f'returned as the bound method `{unparse(p)}`'
+        if isinstance(gp, ast.Call):
+            return f'passed on as the bound method `{unparse(p)}`'
+        if isinstance(gp, (ast.Tuple, ast.List, ast.Dict, ast.Set)):
+            return f'stored in a container as the bound method `{unparse(p)}`'
+        return None
     if isinstance(p, ast.Return):
         return 'returned'
     if isinstance(p, (ast.Assign, ast.AnnAssign, ast.NamedExpr)):
